@@ -151,6 +151,26 @@ func (fc *FnCtx) notAllocated(v Val, t types.Type) string {
 	return and(fs...)
 }
 
+// bornBefore: the reference held by v (if any) was allocated no later than the current allocation clock.
+func (fc *FnCtx) bornBefore(v Val, t types.Type) string {
+	now, ok := fc.ghost["now"]
+	if !ok {
+		return "true"
+	}
+	switch t.Underlying().(type) {
+	case *types.Pointer, *types.Map, *types.Chan:
+		if v.Sort != sInt {
+			return "true"
+		}
+		return sx("<=", sx("born", v.T), now)
+	case *types.Slice:
+		return sx("<=", sx("born", sx("s-obj", v.T)), now)
+	case *types.Interface:
+		return sx("<=", sx("born", sx("i-val", v.T)), now)
+	}
+	return "true"
+}
+
 // mayHaveRun: can allocation site a have executed before the current program point?
 func (fc *FnCtx) mayHaveRun(a ssa.Value) bool {
 	in, ok := a.(ssa.Instruction)
@@ -1009,6 +1029,10 @@ func (fc *FnCtx) execNext(x *ssa.Next) {
 			m := fc.valOf(rng.X)
 			dom := fc.heap.get(fc.eng.mapRegion(mt, "dom"), arr2Sort(sBool))
 			kv, vv := res.Fields[1], res.Fields[2]
+			if kv.Sort == sInt && kv.T == "0" && sortOf(mt.Key()) == sInt {
+				// blank key: the value still belongs to some key of the map
+				kv = scalar(fc.fresh("next.key", sInt), sInt, mt.Key())
+			}
 			if kv.Sort == sInt && kv.T != "0" {
 				fc.assumeHere(implies(okv.T, and(not(eq(m.T, "0")), sel2(dom, m.T, kv.T))))
 				if vs := sortOf(mt.Elem()); vs != "" && vv.Sort == vs {
